@@ -286,3 +286,29 @@ pub proof fn lemma_k_top(f: &Fsm, s: u32)
         lemma_ht_le_max(f, parent_of(f, s));
     }
 }
+
+/// W3C isInFinalState(s) relative to a configuration
+pub open spec fn spec_in_final(f: &Fsm, cfg: Seq<u32>, s: u32) -> bool
+    decreases ht(f, s),
+    when wf_tree(f) && valid_id(f, s)
+    via spec_in_final_decreases
+{
+    if is_compound(f, s) {
+        exists|i: int| 0 <= i < st(f, s).states@.len() && st(f, #[trigger] st(f, s).states@[i]).is_final && cfg.contains(st(f, s).states@[i])
+    } else if is_parallel(f, s) {
+        forall|i: int| 0 <= i < st(f, s).states@.len() ==> spec_in_final(f, cfg, #[trigger] st(f, s).states@[i])
+    } else {
+        false
+    }
+}
+
+#[via_fn]
+proof fn spec_in_final_decreases(f: &Fsm, cfg: Seq<u32>, s: u32) {
+    if !is_compound(f, s) && is_parallel(f, s) {
+        assert forall|i: int| 0 <= i < st(f, s).states@.len() implies ht(f, #[trigger] st(f, s).states@[i]) < ht(f, s) && valid_id(f, st(f, s).states@[i]) && ht(f, st(f, s).states@[i]) >= 0 by {
+            let c = st(f, s).states@[i];
+            assert(parent_of(f, c) == s);
+            lemma_ht(f, c);
+        }
+    }
+}
